@@ -28,6 +28,9 @@ RATES = [
     "a - z0*x", "z0*(1 - x) - z1*x", "-z0*x*y + a", "-(x - y)*z0/tau", "-one*x + a", "-x*(z0 + k)",
     # the own state in a denominator (the derivative is a negative power)
     "a/x", "-b/(k + x)", "a*x/(b + x)", "-x/(k + x)**2", "a/(x*x) - x", "y/(1 + x)**3",
+    # real (integer-valued) exponents on products / quotients that contain the own state: sympy's general power rule gives
+    # p*u**p/x, 0/0 at x = 0 (fixed d681e38)
+    "y - (a*x)**2.0 - x", "-(x*y)**2.0 - x + a", "a - (x/tau)**3.0", "-x*(b*x)**2.0 - k*x", "y - exp(-(a*x)**2.0) - x", "-(a*x)**2.0/(1 + y*y) - x",
 ]
 
 HEADER = ("parameters(a=0.5, b=2.0, tau=3.0, xinf=1.0, k=0.25, g_l=0.3, e_l=-60.0, z0=0.0, z1=0, one=1.0)\n"
